@@ -377,7 +377,7 @@ def stage_b(ctx, procs):
         mism = False
         for ev in h.hist:
             ctx.evaluations += 1
-            npart[0] += ev['ny'] >= ev['k'] and len(exp[ev['ni'] - 1]) > 1
+            npart[0] += len(exp[ev['ni'] - 1]) > 1          # (by the reference: more to come after the first result)
             if ev['oc'] != 'ok' or not recset(ev['res']) <= exp[ev['ni'] - 1]:
                 mism = True
         r1s, r2s, nms = [], [], []
@@ -401,7 +401,7 @@ def stage_b(ctx, procs):
             bad.append((it[1], rules, text, ck, h, ops, nms, r1s, r2s))
         ctx.sample({'kind': 'B-schema', 'text': text, 'names': len(names)}, limit=2)
     ctx.note('B: %d family schemas x %d names executed on compile_lvs + Checker.match (%d more rejected, see C13), every '
-             'matching name first enumerated partially on the same objects (%d enumerations cut short before their end); '
+             'matching name first enumerated partially on the same objects (%d enumerations of names with several matches cut short); '
              '%d differ from Lvs!Match' % (len(items) - nrej, len(names), nrej, npart[0], len(bad)))
     if items and not npart[0]:
         raise tlc.MachineryError('B: no enumeration of the family was really cut short (history dimension vacuous)')
@@ -556,11 +556,12 @@ def stage_c(ctx, procs):
              '%(fault)d aborted by a raising user function, %(nested)d suspended while others ran, %(again)d of a name whose '
              'earlier enumeration on that object was incomplete); %(cks)d checkers constructed meanwhile with other '
              'function tables, %(tabdiff)d of their enumerations differ from what the default table gives' % stat)
-    for k in ('cut', 'fault', 'nested', 'again', 'tabdiff'):
-        if len(recs) >= 50 and not stat[k]:
-            raise tlc.MachineryError('C: history dimension vacuous: %s = 0' % k)
     ver = K.judge(ctx, [strip(r) for r in recs], 'c11c', procs)
     classify_and_report(ctx, 'C11', recs, ver, what_m)
+    # vacuity of the history dimension (the counts come from what the library did: only meaningful when it conforms)
+    for k in ('cut', 'fault', 'nested', 'again', 'tabdiff'):
+        if len(recs) >= 50 and not stat[k] and not any(ver[r['sid']] for r in recs):
+            raise tlc.MachineryError('C: history dimension vacuous: %s = 0' % k)
 
 
 def replay(ctx, path):
